@@ -9,7 +9,7 @@
 From Coq Require Import List Arith ZArith Bool.
 From MomoCommon Require GenPrelude.
 From C05 Require Import ArrayShift.
-From C05 Require ShiftProofs GrowProofs Gen_Grow ArrayModel ArrayProofs.
+From C05 Require ShiftProofs FilterProofs GrowProofs Gen_Grow ArrayModel ArrayProofs.
 Import ListNotations.
 
 (* ArrayShifter::InsertNogrow(array, index, count, const Item& item): for EVERY length, index, count (including 0),
@@ -41,6 +41,26 @@ Theorem C05_remove_refines :
       Ok (arr_of (firstn index l ++ skipn (index + count) l) (r + count)).
 Proof. exact ShiftProofs.remove_refines. Qed.
 Print Assumptions C05_remove_refines.
+
+(* ArrayShifter::Remove(array, itemFilter) = List.filter of the complement, for every list, predicate and element
+   behaviour; the returned count is the number of removed items (the compaction never self-move-assigns: the write
+   position stays strictly behind the read position) *)
+Theorem C05_remove_filter_refines :
+  forall (V : Type) (self_move after_move : V -> option V) (p : V -> bool) (l : list V) (r : nat),
+    remove_filter V self_move after_move p (arr_of l r) =
+      Ok (arr_of (filter (FilterProofs.keep V p) l) (r + (length l - length (filter (FilterProofs.keep V p) l))),
+          length l - length (filter (FilterProofs.keep V p) l)).
+Proof. exact FilterProofs.remove_filter_refines. Qed.
+Print Assumptions C05_remove_filter_refines.
+
+(* InsertNogrow(array, index, Item&&) with a temporary (the InsertCrt / ArrayItemHandler path) *)
+Theorem C05_insert_rvalue_temp_refines :
+  forall (V : Type) (self_move after_move : V -> option V) (l : list V) (r index : nat) (v : V),
+    index <= length l -> 1 <= r ->
+    insert_nogrow_rvalue V self_move after_move true (arr_of l r) index (ArgVal v) =
+      Ok (arr_of (firstn index l ++ [v] ++ skipn index l) (r - 1)).
+Proof. exact FilterProofs.insert_rvalue_temp_refines. Qed.
+Print Assumptions C05_insert_rvalue_temp_refines.
 
 (* empty ranges change nothing at all -- for ANY array state (even one containing moved-from elements) *)
 Theorem C05_insert_count0_is_identity :
